@@ -799,3 +799,6 @@ mod tests {
         assert_eq!(*map.get("second").unwrap(), ["d", "e", "f"]);
     }
 }
+
+#[cfg(kani)]
+pub(crate) mod verif_kani;
